@@ -210,6 +210,59 @@ fn decode(rd: &mut Rd) -> R<Vec<Decoded>> {
                         content.push((*g, ligs));
                     }
                 }
+                (5, 3) => {
+                    // SequenceContextFormat3: glyphCount, seqLookupCount, coverageOffsets[], records[]
+                    let gc = rd.u16(so + 2)? as usize;
+                    let rc = rd.u16(so + 4)? as usize;
+                    rd.span(so, so + 6 + 2 * gc + 4 * rc, "SequenceContext3")?;
+                    let mut arrays = vec![];
+                    for k in 0..gc {
+                        let o = rd.u16(so + 6 + 2 * k)? as usize;
+                        arrays.push(rd.coverage(so + o)?);
+                    }
+                    arrays.push(vec![0xFFFF]);
+                    arrays.push(glyph_array(rd, so + 6 + 2 * gc, 2 * rc)?);
+                    content.push((0, arrays));
+                }
+                (6, 3) => {
+                    // ChainedSequenceContextFormat3: three counted coverage-offset arrays, then records
+                    let mut at = so + 2;
+                    let mut arrays = vec![];
+                    for _ in 0..3 {
+                        let n = rd.u16(at)? as usize;
+                        for k in 0..n {
+                            let o = rd.u16(at + 2 + 2 * k)? as usize;
+                            arrays.push(rd.coverage(so + o)?);
+                        }
+                        arrays.push(vec![0xFFFF]);
+                        at += 2 + 2 * n;
+                    }
+                    let rc = rd.u16(at)? as usize;
+                    arrays.push(glyph_array(rd, at + 2, 2 * rc)?);
+                    rd.span(so, at + 2 + 4 * rc, "ChainedSequenceContext3")?;
+                    content.push((0, arrays));
+                }
+                (8, 1) => {
+                    // ReverseChainSingleSubstFormat1: coverage, backtrack[], lookahead[], substitutes[]
+                    let mut arrays = vec![rd.coverage(so + cov_off)?, vec![0xFFFF]];
+                    let mut at = so + 4;
+                    for _ in 0..2 {
+                        let n = rd.u16(at)? as usize;
+                        for k in 0..n {
+                            let o = rd.u16(at + 2 + 2 * k)? as usize;
+                            arrays.push(rd.coverage(so + o)?);
+                        }
+                        arrays.push(vec![0xFFFF]);
+                        at += 2 + 2 * n;
+                    }
+                    let gc = rd.u16(at)? as usize;
+                    arrays.push(glyph_array(rd, at + 2, gc)?);
+                    rd.span(so, at + 2 + 2 * gc, "ReverseChainSingleSubst1")?;
+                    if arrays[0].len() != gc {
+                        return Err(format!("ReverseChain: {} covered glyphs, {gc} substitutes", arrays[0].len()));
+                    }
+                    content.push((0, arrays));
+                }
                 (t, f) => return Err(format!("lookup {i}: sub-table type {t} format {f} not expected")),
             }
             subs.push(content);
@@ -397,4 +450,250 @@ pub fn run_all(run: &Run) {
     }
     run.observe_many(&all, &nontrivial);
     println!("  gsub path: {} cases, t={:.1}s", cs.len(), run.elapsed());
+}
+
+
+// ---------------------------------------------------------------------------
+// promotion family: every GSUB lookup type 1..=8 with many sub-tables
+// ---------------------------------------------------------------------------
+
+/// One lookup of GSUB type `ltype` (1..=6 or 8) with `subtables` sub-tables of ~600-700 bytes each (all
+/// different, so nothing de-duplicates), optionally next to a small lookup of another type placed
+/// before (companion 1) or after (2) it. With enough sub-tables the 16-bit offsets from the lookup
+/// to its sub-tables overflow and the lookup has to be promoted to an extension lookup: on disk the
+/// lookup type must then be 7 with extensionLookupType = ltype, and every sub-table must decode to
+/// what was written.
+#[derive(Clone, Debug)]
+pub struct PromoCase {
+    pub ltype: u8,
+    pub subtables: u32,
+    pub companion: u8,
+}
+
+impl PromoCase {
+    pub fn to_json(&self) -> Value {
+        json!({"family":"gsub_promo","ltype":self.ltype,"subtables":self.subtables,"companion":self.companion})
+    }
+    pub fn from_json(v: &Value) -> PromoCase {
+        let g = |k: &str| v[k].as_u64().unwrap_or(0);
+        PromoCase { ltype: g("ltype") as u8, subtables: g("subtables") as u32, companion: g("companion") as u8 }
+    }
+}
+
+fn gids(v: &[u16]) -> Vec<GlyphId16> {
+    v.iter().map(|x| GlyphId16::new(*x)).collect()
+}
+/// n glyphs, every other glyph id (=> coverage format 1), different for every (sub-table, slot)
+fn glyph_set(ltype: u8, s: u32, slot: u32, n: u32) -> Vec<u16> {
+    (0..n).map(|i| (50 + (ltype as u32) * 5000 % 20000 + s * 7 + slot + 2 * i) as u16).collect()
+}
+fn cov_of(v: &[u16]) -> wl::CoverageTable {
+    v.iter().map(|x| GlyphId16::new(*x)).collect()
+}
+
+/// one lookup of the given type; returns it with the expected content of every sub-table
+fn promo_lookup(ltype: u8, subtables: u32) -> (w::SubstitutionLookup, Vec<Content>) {
+    let flag = wl::LookupFlag::empty();
+    let mut expect: Vec<Content> = vec![];
+    macro_rules! lookup {
+        ($variant:ident, $subs:expr) => {
+            w::SubstitutionLookup::$variant(wl::Lookup::new(flag, $subs))
+        };
+    }
+    let recs = |s: u32| -> Vec<u16> { vec![0, 0, (s % 3) as u16, 0] }; // two (sequenceIndex, lookupListIndex) records
+    let lookup = match ltype {
+        1 => lookup!(Single, (0..subtables).map(|s| {
+            // 400 substitutes: the sub-table's own bytes (806) x 120 exceed 64 KiB, so the lookup's
+            // 16-bit sub-table offsets cannot all fit and the lookup must be promoted
+            let c = glyph_set(1, s, 0, 400);
+            let subst: Vec<u16> = c.iter().map(|g| g.wrapping_mul(3).wrapping_add(s as u16)).collect();
+            expect.push(c.iter().zip(&subst).map(|(g, r)| (*g, vec![vec![*r]])).collect());
+            w::SingleSubst::format_2(cov_of(&c), gids(&subst))
+        }).collect()),
+        2 | 3 => {
+            let mut subs2 = vec![];
+            let mut subs3 = vec![];
+            for s in 0..subtables {
+                // 300 covered glyphs (own bytes 606 per sub-table), each with its own two-glyph
+                // sequence, unique over the whole table so that nothing de-duplicates
+                let c = glyph_set(ltype, s, 0, 300);
+                let seqs: Vec<Vec<u16>> = (0..300u32).map(|i| vec![(s * 300 + i) as u16, (s * 300 + i) as u16 ^ 0x5555]).collect();
+                expect.push(c.iter().zip(&seqs).map(|(g, q)| (*g, vec![q.clone()])).collect());
+                subs2.push(w::MultipleSubstFormat1::new(cov_of(&c), seqs.iter().map(|q| w::Sequence::new(gids(q))).collect()));
+                subs3.push(w::AlternateSubstFormat1::new(cov_of(&c), seqs.iter().map(|q| w::AlternateSet::new(gids(q))).collect()));
+            }
+            if ltype == 2 { lookup!(Multiple, subs2) } else { lookup!(Alternate, subs3) }
+        }
+        4 => lookup!(Ligature, (0..subtables).map(|s| {
+            let c = glyph_set(4, s, 0, 20);
+            let sets: Vec<Vec<Vec<u16>>> = c.iter().map(|g| (0..3u16).map(|m| vec![g.wrapping_add(9000 + m), g.wrapping_add(m + 1), 77 + s as u16, 78 + m]).collect()).collect();
+            expect.push(c.iter().zip(&sets).map(|(g, l)| (*g, l.clone())).collect());
+            w::LigatureSubstFormat1::new(cov_of(&c), sets.iter().map(|l| w::LigatureSet::new(l.iter().map(|lg| w::Ligature::new(GlyphId16::new(lg[0]), gids(&lg[1..]))).collect())).collect())
+        }).collect()),
+        5 => lookup!(Contextual, (0..subtables).map(|s| {
+            let covs: Vec<Vec<u16>> = (0..3).map(|k| glyph_set(5, s, k, 100)).collect();
+            let mut arrays = covs.clone();
+            arrays.push(vec![0xFFFF]);
+            arrays.push(recs(s));
+            expect.push(vec![(0, arrays)]);
+            let r = recs(s);
+            w::SubstitutionSequenceContext::from(wl::SequenceContext::format_3(covs.iter().map(|c| cov_of(c)).collect(), vec![wl::SequenceLookupRecord::new(r[0], r[1]), wl::SequenceLookupRecord::new(r[2], r[3])]))
+        }).collect()),
+        6 => lookup!(ChainContextual, (0..subtables).map(|s| {
+            let b = vec![glyph_set(6, s, 0, 75)];
+            let i = vec![glyph_set(6, s, 1, 75), glyph_set(6, s, 2, 75)];
+            let l = vec![glyph_set(6, s, 3, 75)];
+            let mut arrays = vec![];
+            for part in [&b, &i, &l] {
+                arrays.extend(part.iter().cloned());
+                arrays.push(vec![0xFFFF]);
+            }
+            arrays.push(recs(s));
+            expect.push(vec![(0, arrays)]);
+            let r = recs(s);
+            let cv = |p: &Vec<Vec<u16>>| -> Vec<wl::CoverageTable> { p.iter().map(|c| cov_of(c)).collect() };
+            w::SubstitutionChainContext::from(wl::ChainedSequenceContext::format_3(cv(&b), cv(&i), cv(&l), vec![wl::SequenceLookupRecord::new(r[0], r[1]), wl::SequenceLookupRecord::new(r[2], r[3])]))
+        }).collect()),
+        _ => lookup!(Reverse, (0..subtables).map(|s| {
+            let c = glyph_set(8, s, 0, 300);
+            let b = glyph_set(8, s, 1, 50);
+            let l = glyph_set(8, s, 2, 50);
+            let subst: Vec<u16> = c.iter().map(|g| g.wrapping_add(12345)).collect();
+            expect.push(vec![(0, vec![c.clone(), vec![0xFFFF], b.clone(), vec![0xFFFF], l.clone(), vec![0xFFFF], subst.clone()])]);
+            w::ReverseChainSingleSubstFormat1::new(cov_of(&c), vec![cov_of(&b)], vec![cov_of(&l)], gids(&subst))
+        }).collect()),
+    };
+    (lookup, expect)
+}
+
+pub struct PromoOutcome {
+    pub refused: bool,
+    pub promoted: bool,
+    pub len: usize,
+}
+
+pub fn check_promo(c: &PromoCase) -> Result<PromoOutcome, (String, String)> {
+    let e = |cl: &str, d: String| Err((cl.to_string(), d));
+    let (main, main_expect) = promo_lookup(c.ltype, c.subtables);
+    // a small lookup of the next real lookup type (7 is the extension type itself)
+    let other = match c.ltype {
+        6 => 8,
+        8 => 1,
+        t => t + 1,
+    };
+    let mut lookups = vec![];
+    let mut expects: Vec<(u8, Vec<Content>)> = vec![];
+    if c.companion == 1 {
+        let (l, x) = promo_lookup(other, 1);
+        lookups.push(l);
+        expects.push((other, x));
+    }
+    lookups.push(main);
+    expects.push((c.ltype, main_expect));
+    if c.companion == 2 {
+        let (l, x) = promo_lookup(other, 1);
+        lookups.push(l);
+        expects.push((other, x));
+    }
+    let gsub = w::Gsub::new(Default::default(), Default::default(), wl::LookupList::new(lookups));
+    let bytes = match guard(|| write_fonts::dump_table(&gsub)) {
+        Ok(Ok(b)) => b,
+        Ok(Err(write_fonts::error::Error::PackingFailed(_))) => return Ok(PromoOutcome { refused: true, promoted: false, len: 0 }),
+        Ok(Err(err)) => return e("dump_table-error-other-than-PackingFailed", format!("{err}")),
+        Err(p) => return e(&format!("dump_table panic: {} [{}]", p.kind().split_whitespace().collect::<Vec<_>>().join(" "), p.site()), format!("{} at {}:{}", p.message, p.file, p.line)),
+    };
+    let mut rd = Rd::new(&bytes);
+    let dec = match decode(&mut rd) {
+        Ok(d) => d,
+        Err(d) => return e("output-does-not-decode", d),
+    };
+    if let Err(d) = rd.check_spans() {
+        return e("objects-overlap", d);
+    }
+    if dec.len() != expects.len() {
+        return e("lookup-count-differs", format!("{} vs {}", dec.len(), expects.len()));
+    }
+    for (li, (d, (want_type, want))) in dec.iter().zip(&expects).enumerate() {
+        if d.kind != *want_type as u16 {
+            return e("lookup-type-differs", format!("lookup {li}: effective type {} (written as extension: {}), input type {want_type}", d.kind, d.extension));
+        }
+        if &d.subs != want {
+            let at = d.subs.iter().zip(want.iter()).position(|(a, b)| a != b);
+            return e("sub-table-content-differs", format!("lookup {li} (type {want_type}): {} vs {} sub-tables, first difference at {:?}", d.subs.len(), want.len(), at));
+        }
+    }
+    let main_ix = if c.companion == 1 { 1 } else { 0 };
+    Ok(PromoOutcome { refused: false, promoted: dec[main_ix].extension, len: bytes.len() })
+}
+
+pub fn run_promo_case(run: &Run, c: &PromoCase) -> Option<PromoOutcome> {
+    match check_promo(c) {
+        Ok(o) => Some(o),
+        Err((class, detail)) => {
+            let mut reason = String::new();
+            if class == "output-does-not-decode" || class == "objects-overlap" {
+                for ch in detail.chars() {
+                    let ch = if ch.is_ascii_digit() { '#' } else { ch };
+                    if !(ch == '#' && reason.ends_with('#')) {
+                        reason.push(ch);
+                    }
+                }
+                reason = format!(": {}", reason.chars().take(70).collect::<String>());
+            }
+            run.violation(&format!("dump_table(Gsub) promotion: {class}{reason} (GSUB lookup type {} companion={})", c.ltype, c.companion), &format!("{c:?}: {detail}"), c.to_json());
+            None
+        }
+    }
+}
+
+pub fn replay_promo(run: &Run, case: &Value) {
+    let c = PromoCase::from_json(case);
+    if let Some(o) = run_promo_case(run, &c) {
+        println!("replay: refused={} promoted={} len={}", o.refused, o.promoted, o.len);
+    }
+}
+
+pub fn run_promo(run: &Run) {
+    let quick = run.tier == Tier::Quick;
+    let mut cs = vec![];
+    for ltype in [1u8, 2, 3, 4, 5, 6, 8] {
+        for subtables in if quick { vec![2u32, 120] } else { vec![1, 2, 60, 100, 110, 120, 200] } {
+            for companion in 0..3u8 {
+                cs.push(PromoCase { ltype, subtables, companion });
+            }
+        }
+    }
+    run.bound("gsub_promotion_cases", json!(format!("{} cases: GSUB lookup types 1-6 and 8 (contextual 5/6 in format 3, 8 = ReverseChainSingleSubst; 7 is the extension type) x sub-table counts {} (~650 bytes each, all distinct) x {{alone, small lookup of another type before, after}}", cs.len(), if quick { "{2, 120}" } else { "{1, 2, 60, 100, 110, 120, 200}" })));
+    let results: Vec<(usize, Option<PromoOutcome>)> = cs.par_iter().enumerate().map(|(i, c)| (i, run_promo_case(run, c))).collect();
+    let mut all = HashSet::new();
+    let mut nontrivial = HashSet::new();
+    let mut promoted_types = HashSet::new();
+    for (i, o) in &results {
+        run.eval();
+        run.trans(2);
+        let Some(o) = o else { continue };
+        run.count("gsub_promo_cases_checked", 1);
+        let mut h = Fnv::new();
+        h.str("gsub_promo");
+        h.u64(cs[*i].ltype as u64);
+        h.u64(o.refused as u64);
+        h.u64(o.promoted as u64);
+        all.insert(h.finish());
+        if o.refused {
+            run.count("gsub_promo_refused(PackingFailed)", 1);
+        }
+        if o.promoted {
+            run.count("gsub_promo_cases_promoted", 1);
+            promoted_types.insert(cs[*i].ltype);
+            nontrivial.insert(h.finish());
+        }
+    }
+    run.observe_many(&all, &nontrivial);
+    // vacuity gate: every lookup type must have been promoted at least once (when all cases passed)
+    if results.iter().all(|r| r.1.is_some()) && promoted_types.len() != 7 {
+        let mut t: Vec<u8> = promoted_types.into_iter().collect();
+        t.sort();
+        run.machinery_error(&format!("GSUB promotion family: only lookup types {t:?} were promoted"));
+    }
+    println!("  gsub promotion: {} cases, t={:.1}s", cs.len(), run.elapsed());
 }
